@@ -198,3 +198,176 @@ pub fn next_layer_circ(b: &serde_json::Value, lookups: &[p3_lookup::Lookups<F>])
     };
     Ok(nl_finish(&prev, &cfg))
 }
+
+// ---- `verify_fri_circuit` called on its own, with malformed *arguments* ----
+
+/// Builds the arguments of `verify_fri_circuit` for the honest uni-STARK proof the way
+/// `verify_p3_uni_proof_circuit` does (challenges as fresh inputs), applies one argument-level
+/// mutation and calls it. Outcome: Accept = built, BuildErr = typed error, Panic = panic.
+pub fn fri_arg_mutants(air: crate::kit::airs::TAir, b: &serde_json::Value) -> Result<Vec<(String, crate::kit::CircV)>, String> {
+    use crate::kit::{CircV, guard_circ};
+    use p3_commit::{Pcs, PolynomialSpace};
+    use p3_recursion::Target;
+    let _ = air;
+    let proof: p3_uni_stark::Proof<SC> = de(b, "proof")?;
+    let pis: Vec<F> = de(b, "pis")?;
+    let prep: Option<ComV> = de(b, "prep")?;
+    let fri: crate::kit::FriSc = de(b, "fri")?;
+    let config = make_config(&fri);
+    let pcs = p3_uni_stark::StarkGenericConfig::pcs(&config);
+    let db = proof.degree_bits;
+    let nq = proof.opened_values.quotient_chunks.len();
+    if !nq.is_power_of_two() || db > 20 {
+        return Ok(vec![]);
+    }
+    let log_qd = p3_util::log2_strict_usize(nq);
+    let trace_domain = <PcsT as Pcs<Challenge, Challenger>>::natural_domain_for_degree(pcs, 1 << db);
+    let qdom = trace_domain.create_disjoint_domain(1 << (db + log_qd));
+    let qdoms = qdom.split_domains(nq);
+    let n_betas = proof.opening_proof.commit_phase_commits.len();
+    let total_log: usize = proof
+        .opening_proof
+        .query_proofs
+        .first()
+        .map(|q| q.commit_phase_openings.iter().map(|o| o.log_arity as usize).sum())
+        .unwrap_or(0);
+    let log_max_h = total_log + fri.log_final_poly_len + fri.log_blowup;
+    let n_queries = proof.opening_proof.query_proofs.len();
+    const MUTS: &[&str] = &[
+        "none", "betas:drop-last", "betas:dup-last", "betas:empty",
+        "bits:drop-query", "bits:dup-query", "bits:empty", "bits[0]:drop-last", "bits[0]:dup-last", "bits[0]:empty",
+        "bits[last]:drop-last", "coms:drop-last", "coms:dup-last", "coms:empty", "coms:swap",
+        "coms[0].mats:empty", "coms[1].mats:drop-last", "coms[1].mats:dup-last", "coms[0].points:drop-last",
+        "coms[0].points:empty", "coms[0].values:drop-last", "coms[0].values:dup-last", "coms[0].values:empty",
+        "log_blowup:0", "log_blowup:+1", "log_blowup:-1", "log_blowup:64", "log_blowup:max",
+    ];
+    let mut out = vec![];
+    for m in MUTS {
+        let r = guard_circ("verify_fri_circuit", || {
+            let mut cb = new_builder();
+            let vi = p3_recursion::StarkVerifierInputsBuilder::<SC, Comm, InnerFri>::allocate(
+                &mut cb,
+                &proof,
+                prep.as_ref(),
+                pis.len(),
+            );
+            let pt = &vi.proof_targets;
+            let o = &pt.opened_values_targets;
+            let zeta = cb.public_input();
+            let zeta_next = cb.public_input();
+            let alpha = cb.public_input();
+            let mut betas: Vec<Target> = (0..n_betas).map(|_| cb.public_input()).collect();
+            let mut bits: Vec<Vec<Target>> =
+                (0..n_queries).map(|_| (0..log_max_h).map(|_| cb.public_input()).collect()).collect();
+            let mut coms = vec![
+                (
+                    pt.commitments_targets.trace_targets.clone(),
+                    vec![(
+                        trace_domain,
+                        vec![(zeta, o.trace_local_targets.clone()), (zeta_next, o.trace_next_targets.clone())],
+                    )],
+                ),
+                (
+                    pt.commitments_targets.quotient_chunks_targets.clone(),
+                    qdoms.iter().zip(o.quotient_chunks_targets.iter()).map(|(d, v)| (*d, vec![(zeta, v.clone())])).collect(),
+                ),
+            ];
+            if let (Some(pc), Some(pl), Some(pn)) =
+                (&vi.preprocessed_commit, &o.preprocessed_local_targets, &o.preprocessed_next_targets)
+            {
+                coms.push((pc.clone(), vec![(trace_domain, vec![(zeta, pl.clone()), (zeta_next, pn.clone())])]));
+            }
+            let mut log_blowup = fri.log_blowup;
+            match *m {
+                "betas:drop-last" => {
+                    betas.pop();
+                }
+                "betas:dup-last" => {
+                    if let Some(l) = betas.last().copied() {
+                        betas.push(l);
+                    }
+                }
+                "betas:empty" => betas.clear(),
+                "bits:drop-query" => {
+                    bits.pop();
+                }
+                "bits:dup-query" => {
+                    if let Some(l) = bits.last().cloned() {
+                        bits.push(l);
+                    }
+                }
+                "bits:empty" => bits.clear(),
+                "bits[0]:drop-last" => {
+                    bits[0].pop();
+                }
+                "bits[0]:dup-last" => {
+                    if let Some(l) = bits[0].last().copied() {
+                        bits[0].push(l);
+                    }
+                }
+                "bits[0]:empty" => bits[0].clear(),
+                "bits[last]:drop-last" => {
+                    if let Some(l) = bits.last_mut() {
+                        l.pop();
+                    }
+                }
+                "coms:drop-last" => {
+                    coms.pop();
+                }
+                "coms:dup-last" => {
+                    if let Some(l) = coms.last().cloned() {
+                        coms.push(l);
+                    }
+                }
+                "coms:empty" => coms.clear(),
+                "coms:swap" => coms.swap(0, 1),
+                "coms[0].mats:empty" => coms[0].1.clear(),
+                "coms[1].mats:drop-last" => {
+                    coms[1].1.pop();
+                }
+                "coms[1].mats:dup-last" => {
+                    if let Some(l) = coms[1].1.last().cloned() {
+                        coms[1].1.push(l);
+                    }
+                }
+                "coms[0].points:drop-last" => {
+                    coms[0].1[0].1.pop();
+                }
+                "coms[0].points:empty" => coms[0].1[0].1.clear(),
+                "coms[0].values:drop-last" => {
+                    coms[0].1[0].1[0].1.pop();
+                }
+                "coms[0].values:dup-last" => {
+                    if let Some(l) = coms[0].1[0].1[0].1.last().copied() {
+                        coms[0].1[0].1[0].1.push(l);
+                    }
+                }
+                "coms[0].values:empty" => coms[0].1[0].1[0].1.clear(),
+                "log_blowup:0" => log_blowup = 0,
+                "log_blowup:+1" => log_blowup += 1,
+                "log_blowup:-1" => log_blowup = log_blowup.saturating_sub(1),
+                "log_blowup:64" => log_blowup = 64,
+                "log_blowup:max" => log_blowup = usize::MAX,
+                _ => {}
+            }
+            p3_recursion::pcs::verify_fri_circuit(
+                &mut cb,
+                &pt.opening_proof,
+                alpha,
+                &betas,
+                &bits,
+                &coms,
+                log_blowup,
+                Some(perm_cfg().into()),
+            )
+            .map(|_| ())
+        });
+        let v = match r {
+            Ok(Ok(())) => CircV::Accept,
+            Ok(Err(e)) => build_err(&e),
+            Err(p) => p,
+        };
+        out.push((m.to_string(), v));
+    }
+    Ok(out)
+}
